@@ -6,6 +6,8 @@
 //! line: `C16 <d|i> <token> <token> ... => <obs> <obs> ...`  (one observation per token)
 //!   before `LOAD`: environment steps that build the source tree; `NEW` instead = `Font::new()`
 //!   `I:<key>:<bytes>` insert   `R:<key>` remove   `G:<key>` get   `H:<key>` contains_key   `C` clear
+//!   `CL` continue on a clone of the font (the original gets the same steps; `!` marks a differing observation)
+//!   `X:<path>:<o|i|d>` replace by a symlink to a directory outside / inside the UFO, or a dangling one
 //!   `T` iter   `K` keys/len/is_empty   `S`/`SA`/`SE` Font::save into a fresh sandbox whose target holds
 //!   sentinels / is absent / is an empty directory
 //!   `W:<path>:<bytes>` (re)write a file of the source store directory   `D:<path>` delete
@@ -16,6 +18,7 @@ use crate::rng::Rng;
 use norad::datastore::{DataType, Store};
 use norad::Font;
 use std::io::Write;
+use std::os::unix::ffi::{OsStrExt, OsStringExt};
 use std::path::{Path, PathBuf};
 
 const PNG: [u8; 8] = [137u8, 80, 78, 71, 13, 10, 26, 10];
@@ -24,18 +27,27 @@ fn unhex_str(s: &str) -> String {
     String::from_utf8(unhex(s)).unwrap()
 }
 
+/// keys and tree paths travel as the hex of their raw bytes (they need not be UTF-8)
+fn pb(h: &str) -> PathBuf {
+    PathBuf::from(std::ffi::OsString::from_vec(unhex(h)))
+}
+
+fn khex(p: &Path) -> String {
+    hex(p.as_os_str().as_bytes())
+}
+
 fn keys_of<T: DataType>(st: &Store<T>) -> String {
-    let mut ks: Vec<String> = st.keys().map(|k| k.to_string_lossy().to_string()).collect();
+    let mut ks: Vec<Vec<u8>> = st.keys().map(|k| k.as_os_str().as_bytes().to_vec()).collect();
     ks.sort();
-    ks.iter().map(|k| hexs(k)).collect::<Vec<_>>().join(",")
+    ks.iter().map(|k| hex(k)).collect::<Vec<_>>().join(",")
 }
 
 /// contents through `keys()` + `get` (independent of `iter`), used for the dump after a save
 fn get_dump<T: DataType>(st: &Store<T>) -> String {
-    let mut v: Vec<(String, String)> = st
+    let mut v: Vec<(Vec<u8>, String)> = st
         .keys()
         .map(|k| {
-            (k.to_string_lossy().to_string(), match st.get(k) {
+            (k.as_os_str().as_bytes().to_vec(), match st.get(k) {
                 Some(Ok(b)) => format!("o{}", hex(&b)),
                 Some(Err(_)) => "e".to_string(),
                 None => "missing".to_string(),
@@ -43,21 +55,21 @@ fn get_dump<T: DataType>(st: &Store<T>) -> String {
         })
         .collect();
     v.sort();
-    v.iter().map(|(k, r)| format!("{}={}", hexs(k), r)).collect::<Vec<_>>().join(",")
+    v.iter().map(|(k, r)| format!("{}={}", hex(k), r)).collect::<Vec<_>>().join(",")
 }
 
 fn iter_dump<T: DataType>(st: &Store<T>) -> String {
-    let mut v: Vec<(String, String)> = st
+    let mut v: Vec<(Vec<u8>, String)> = st
         .iter()
         .map(|(k, r)| {
-            (k.to_string_lossy().to_string(), match r {
+            (k.as_os_str().as_bytes().to_vec(), match r {
                 Ok(b) => format!("o{}", hex(&b)),
                 Err(_) => "e".to_string(),
             })
         })
         .collect();
     v.sort();
-    v.iter().map(|(k, r)| format!("{}={}", hexs(k), r)).collect::<Vec<_>>().join(",")
+    v.iter().map(|(k, r)| format!("{}={}", hex(k), r)).collect::<Vec<_>>().join(",")
 }
 
 struct Ctx {
@@ -70,13 +82,13 @@ struct Ctx {
 
 fn env_step(cx: &mut Ctx, tok: &str) {
     let parts: Vec<&str> = tok.split(':').collect();
-    let rel = unhex_str(parts[1]);
-    let p = cx.store_dir.join(&rel);
+    let relb = unhex(parts[1]);
+    let p = cx.store_dir.join(pb(parts[1]));
     // make every proper prefix a directory
     let mut cur = cx.store_dir.clone();
-    let comps: Vec<&str> = rel.split('/').collect();
+    let comps: Vec<&[u8]> = relb.split(|b| *b == b'/').collect();
     for c in &comps[..comps.len() - 1] {
-        cur = cur.join(c);
+        cur = cur.join(std::ffi::OsStr::from_bytes(c));
         let md = std::fs::symlink_metadata(&cur);
         match md {
             Ok(m) if m.is_dir() && !m.file_type().is_symlink() => {}
@@ -98,12 +110,29 @@ fn env_step(cx: &mut Ctx, tok: &str) {
             std::fs::write(&side, unhex(parts[2])).unwrap();
             std::os::unix::fs::symlink(&side, &p).unwrap();
         }
+        // a symbolic link that does not lead to a plain file: `o` a directory outside the UFO that
+        // holds a file, `i` a directory inside the UFO (its glyphs directory), `d` dangling
+        "X" => {
+            cx.links += 1;
+            let target = match parts[2] {
+                "o" => {
+                    let side = cx.dir.join(format!("linkdir{}", cx.links));
+                    std::fs::create_dir_all(side.join("sub")).unwrap();
+                    std::fs::write(side.join("secret.txt"), b"secret").unwrap();
+                    std::fs::write(side.join("sub").join("deep.png"), PNG).unwrap();
+                    side
+                }
+                "i" => cx.src.join("glyphs"),
+                _ => cx.dir.join(format!("nowhere{}", cx.links)),
+            };
+            std::os::unix::fs::symlink(&target, &p).unwrap();
+        }
         _ => unreachable!(),
     }
 }
 
 fn is_env(tok: &str) -> bool {
-    tok.starts_with("W:") || tok.starts_with("D:") || tok.starts_with("M:") || tok.starts_with("L:")
+    tok.starts_with("W:") || tok.starts_with("D:") || tok.starts_with("M:") || tok.starts_with("L:") || tok.starts_with("X:")
 }
 
 /// sandbox for one save.  variant `S`: the target exists and holds sentinels; `SA`: the target path is
@@ -128,20 +157,42 @@ fn sandbox(cx: &mut Ctx, variant: &str) -> (PathBuf, PathBuf) {
     (sb, target)
 }
 
-/// the sandbox after a save; after a successful save the files every UFO has are left out
+/// the sandbox after a save (paths as raw bytes); after a successful save the files every UFO has are left out
 fn tree_dump(sb: &Path, ok: bool) -> String {
+    fn walk(base: &Path, p: &Path, out: &mut Vec<(Vec<u8>, char, Vec<u8>)>) {
+        let rel = p.strip_prefix(base).unwrap().as_os_str().as_bytes().to_vec();
+        let md = match std::fs::symlink_metadata(p) {
+            Ok(m) => m,
+            Err(_) => return,
+        };
+        if md.file_type().is_symlink() {
+            out.push((rel, 'l', Vec::new()));
+        } else if md.is_dir() {
+            out.push((rel, 'd', Vec::new()));
+            let mut names: Vec<_> = std::fs::read_dir(p).unwrap().map(|e| e.unwrap().path()).collect();
+            names.sort();
+            for n in names {
+                walk(base, &n, out);
+            }
+        } else {
+            out.push((rel, 'f', std::fs::read(p).unwrap_or_default()));
+        }
+    }
+    let mut nodes = Vec::new();
+    walk(sb, sb, &mut nodes);
     let mut v = Vec::new();
-    for (rel, kind, bytes) in snapshot(sb) {
+    for (rel, kind, bytes) in nodes {
         if rel.is_empty() {
             continue;
         }
-        let t = "up/target.ufo/";
-        if let Some(r) = rel.strip_prefix(t) {
-            if ok && (r == "metainfo.plist" || r == "layercontents.plist" || r == "glyphs" || r.starts_with("glyphs/")) {
+        let t = b"up/target.ufo/";
+        if ok && rel.starts_with(t) {
+            let r = &rel[t.len()..];
+            if r == b"metainfo.plist" || r == b"layercontents.plist" || r == b"glyphs" || r.starts_with(b"glyphs/") {
                 continue;
             }
         }
-        v.push(format!("{}={}{}", hexs(&rel), kind, if kind == 'd' { String::new() } else { hex(&bytes) }));
+        v.push(format!("{}={}{}", hex(&rel), kind, if kind == 'd' { String::new() } else { hex(&bytes) }));
     }
     v.join(",")
 }
@@ -150,22 +201,22 @@ fn store_step<T: DataType>(st: &mut Store<T>, tok: &str) -> String {
     let parts: Vec<&str> = tok.split(':').collect();
     match parts[0] {
         "I" => {
-            let k = PathBuf::from(unhex_str(parts[1]));
+            let k = pb(parts[1]);
             match st.insert(k, unhex(parts[2])) {
                 Ok(()) => "k".to_string(),
                 Err(e) => format!("e.{:?}", e).split('(').next().unwrap().to_string(),
             }
         }
         "R" => {
-            st.remove(Path::new(&unhex_str(parts[1])));
+            st.remove(&pb(parts[1]));
             "-".to_string()
         }
-        "G" => match st.get(Path::new(&unhex_str(parts[1]))) {
+        "G" => match st.get(&pb(parts[1])) {
             None => "n".to_string(),
             Some(Ok(b)) => format!("o{}", hex(&b)),
             Some(Err(_)) => "e".to_string(),
         },
-        "H" => (st.contains_key(Path::new(&unhex_str(parts[1]))) as u8).to_string(),
+        "H" => (st.contains_key(&pb(parts[1])) as u8).to_string(),
         "C" => {
             st.clear();
             "-".to_string()
@@ -173,6 +224,45 @@ fn store_step<T: DataType>(st: &mut Store<T>, tok: &str) -> String {
         "T" => format!("t{}", iter_dump(st)),
         "K" => format!("{}.{}", st.len(), st.is_empty() as u8),
         _ => "?".to_string(),
+    }
+}
+
+/// one store or save step on one font: (observation, freeze the environment?, panicked in a store step?)
+fn font_step(f: &mut Font, kind: &str, tok: &str, cx: &mut Ctx) -> (String, bool, bool) {
+    if tok == "S" || tok == "SA" || tok == "SE" {
+        let (sb, target) = sandbox(cx, tok);
+        let r = guarded(|| f.save(&target));
+        let (res, ok) = match r {
+            Ok(Ok(())) => ("k".to_string(), true),
+            Ok(Err(e)) => {
+                let s = format!("{:?}", e);
+                (format!("e.{}", s.split(|c: char| !c.is_alphanumeric()).next().unwrap_or("")), false)
+            }
+            Err(_) => ("p".to_string(), false),
+        };
+        let tree = tree_dump(&sb, ok);
+        let it = match guarded(|| if kind == "d" { get_dump(&f.data) } else { get_dump(&f.images) }) {
+            Ok(s) => s,
+            Err(_) => "panic".to_string(),
+        };
+        let ks = if kind == "d" { keys_of(&f.data) } else { keys_of(&f.images) };
+        rm_rf(&sb);
+        // a save refused because of an error entry may have left other cells lazy (hash order):
+        // from here on the environment is not changed any more
+        let freeze = !ok && (it.contains("=e") || it == "panic");
+        return (format!("{}|{}|{}#{}", res, tree, it, ks), freeze, false);
+    }
+    let r = if kind == "d" {
+        guarded(|| store_step(&mut f.data, tok))
+    } else {
+        guarded(|| store_step(&mut f.images, tok))
+    };
+    match r {
+        Ok(s) => {
+            let ks = if kind == "d" { keys_of(&f.data) } else { keys_of(&f.images) };
+            (format!("{}#{}", s, ks), false, false)
+        }
+        Err(_) => ("panic".to_string(), false, true),
     }
 }
 
@@ -188,6 +278,7 @@ pub fn observe(toks: &[&str]) -> String {
     let mut cx = Ctx { dir: dir.clone(), src, store_dir, links: 0, saves: 0 };
     let mut obs: Vec<String> = Vec::new();
     let mut font: Option<Font> = None;
+    let mut shadow: Option<Font> = None; // the original, once the history continues on a clone
     let mut dead = false; // load failed, or a panic: nothing more is executed
     let mut frozen = false; // after a failed save environment steps are not executed
     let mut prepared = false;
@@ -250,48 +341,36 @@ pub fn observe(toks: &[&str]) -> String {
                 continue;
             }
         };
-        if *tok == "S" || *tok == "SA" || *tok == "SE" {
-            let (sb, target) = sandbox(&mut cx, tok);
-            let r = guarded(|| f.save(&target));
-            let (res, ok) = match r {
-                Ok(Ok(())) => ("k".to_string(), true),
-                Ok(Err(e)) => {
-                    let s = format!("{:?}", e);
-                    (format!("e.{}", s.split(|c: char| !c.is_alphanumeric()).next().unwrap_or("")), false)
-                }
-                Err(_) => ("p".to_string(), false),
-            };
-            let tree = tree_dump(&sb, ok);
-            let it = match guarded(|| if kind == "d" { get_dump(&f.data) } else { get_dump(&f.images) }) {
-                Ok(s) => s,
-                Err(_) => "panic".to_string(),
-            };
-            let ks = if kind == "d" { keys_of(&f.data) } else { keys_of(&f.images) };
-            obs.push(format!("{}|{}|{}#{}", res, tree, it, ks));
-            // a save refused because of an error entry may have left other cells lazy (hash order):
-            // from here on the environment is not changed any more
-            if !ok && (it.contains("=e") || it == "panic") {
-                frozen = true;
+        if *tok == "CL" {
+            // from here on the history runs on a clone; the original is kept and receives the same
+            // operations, every observation is compared with the original's
+            let c = f.clone();
+            if shadow.is_none() {
+                shadow = Some(std::mem::replace(f, c));
+            } else {
+                *f = c;
             }
-            rm_rf(&sb);
+            let ks = if kind == "d" { keys_of(&f.data) } else { keys_of(&f.images) };
+            obs.push(format!("-#{}", ks));
             continue;
         }
-        let r = if kind == "d" {
-            guarded(|| store_step(&mut f.data, tok))
-        } else {
-            guarded(|| store_step(&mut f.images, tok))
-        };
-        match r {
-            Ok(s) => {
-                let ks = if kind == "d" { keys_of(&f.data) } else { keys_of(&f.images) };
-                obs.push(format!("{}#{}", s, ks));
-            }
-            Err(_) => {
-                obs.push("panic".to_string());
-                dead = true;
+        let (o, freeze, panicked) = font_step(f, kind, tok, &mut cx);
+        let mut mark = "";
+        if let Some(sh) = shadow.as_mut() {
+            let (o2, _, _) = font_step(sh, kind, tok, &mut cx);
+            if o2 != o {
+                mark = "!";
             }
         }
+        obs.push(format!("{}{}", mark, o));
+        if freeze {
+            frozen = true;
+        }
+        if panicked {
+            dead = true;
+        }
     }
+    drop(shadow);
     drop(font);
     rm_rf(&dir);
     let _ = std::fs::remove_dir(&base); // only when empty
@@ -420,19 +499,23 @@ pub fn gen_path(_tier: &str, seed: u64, out: &mut dyn Write) {
 
 // ---------------------------------------------------------------- history generator
 
-const KEY_POOL: [&str; 12] =
-    ["a", "a/b", "a/b/c", "b", "./a", "a/../b", "..", "../x", "/abs", "", "a/", "a//b"];
-const KEY_EXTRA: [&str; 17] = [
-    "b/a", ".", "a/b/", "c", "a/.", "b/", "a/b/c/d", "./a/b", "/abs/x",
+const KEY_POOL: [&[u8]; 12] =
+    [b"a", b"a/b", b"a/b/c", b"b", b"./a", b"a/../b", b"..", b"../x", b"/abs", b"", b"a/", b"a//b"];
+const KEY_EXTRA: [&[u8]; 24] = [
+    b"b/a", b".", b"a/b/", b"c", b"a/.", b"b/", b"a/b/c/d", b"./a/b", b"/abs/x",
     // hidden names and other dot-laden *normal* components (not the `.`/`..` path components)
-    ".hidden", "a/.lock", ".cache/x", "..hidden", "...", "a.", ".b.png", ".c/.d",
+    b".hidden", b"a/.lock", b".cache/x", b"..hidden", b"...", b"a.", b".b.png", b".c/.d",
+    // names that are not UTF-8 (two that differ only in an invalid byte), and a multi-byte one
+    b"\xff", b"\xfe", b"a\xffb", b"a\xfeb", b"d/\xff\xfe.bin", b"\xc3\x28", b"caf\xc3\xa9",
 ];
-const TREE_DATA: [&str; 15] = [
-    "a", "b", "a/b", "a/b/c", "c", "b/a", "a/c",
-    ".hidden", "a/.lock", ".cache/x", "..hidden", "...", "a.", ".c/.d", "com.example.tool/.lock",
+const TREE_DATA: [&[u8]; 20] = [
+    b"a", b"b", b"a/b", b"a/b/c", b"c", b"b/a", b"a/c",
+    b".hidden", b"a/.lock", b".cache/x", b"..hidden", b"...", b"a.", b".c/.d", b"com.example.tool/.lock",
+    b"\xff", b"\xfe", b"a\xffb", b"d/\xff\xfe.bin", b"caf\xc3\xa9",
 ];
-const TREE_IMG_FLAT: [&str; 8] = ["a", "b", "c", ".b.png", ".hidden", "...", "a.", "..hidden"];
-const TREE_IMG_SUB: [&str; 3] = ["a/b", ".h/x", "c/.d"];
+const TREE_IMG_FLAT: [&[u8]; 11] =
+    [b"a", b"b", b"c", b".b.png", b".hidden", b"...", b"a.", b"..hidden", b"\xff", b"\xfe", b"a\xffb"];
+const TREE_IMG_SUB: [&[u8]; 3] = [b"a/b", b".h/x", b"c/.d"];
 
 fn content(rng: &mut Rng, kind: &str) -> Vec<u8> {
     let png_bias = if kind == "i" { 7 } else { 2 };
@@ -465,7 +548,7 @@ fn content(rng: &mut Rng, kind: &str) -> Vec<u8> {
     }
 }
 
-fn key(rng: &mut Rng) -> &'static str {
+fn key(rng: &mut Rng) -> &'static [u8] {
     if rng.chance(4, 5) {
         KEY_POOL[rng.below(KEY_POOL.len())]
     } else {
@@ -473,7 +556,7 @@ fn key(rng: &mut Rng) -> &'static str {
     }
 }
 
-fn tree_path(rng: &mut Rng, kind: &str) -> &'static str {
+fn tree_path(rng: &mut Rng, kind: &str) -> &'static [u8] {
     if kind == "d" {
         TREE_DATA[rng.below(TREE_DATA.len())]
     } else if rng.chance(1, 12) {
@@ -486,18 +569,21 @@ fn tree_path(rng: &mut Rng, kind: &str) -> &'static str {
 fn env_tok(rng: &mut Rng, kind: &str, building: bool) -> String {
     let p = tree_path(rng, kind);
     let r = rng.below(if building { 24 } else { 10 });
+    if rng.chance(1, if building { 14 } else { 9 }) {
+        return format!("X:{}:{}", hex(p), ["o", "i", "d"][rng.below(3)]);
+    }
     if building {
         match r {
-            0 => format!("M:{}", hexs(p)),
-            1 if rng.chance(1, 3) => format!("L:{}:{}", hexs(p), hex(&content(rng, kind))),
-            _ => format!("W:{}:{}", hexs(p), hex(&content(rng, kind))),
+            0 => format!("M:{}", hex(p)),
+            1 if rng.chance(1, 3) => format!("L:{}:{}", hex(p), hex(&content(rng, kind))),
+            _ => format!("W:{}:{}", hex(p), hex(&content(rng, kind))),
         }
     } else {
         match r {
-            0..=4 => format!("W:{}:{}", hexs(p), hex(&content(rng, kind))),
-            5 | 6 => format!("D:{}", hexs(p)),
-            7 | 8 => format!("M:{}", hexs(p)),
-            _ => format!("L:{}:{}", hexs(p), hex(&content(rng, kind))),
+            0..=4 => format!("W:{}:{}", hex(p), hex(&content(rng, kind))),
+            5 | 6 => format!("D:{}", hex(p)),
+            7 | 8 => format!("M:{}", hex(p)),
+            _ => format!("L:{}:{}", hex(p), hex(&content(rng, kind))),
         }
     }
 }
@@ -511,6 +597,9 @@ fn history(rng: &mut Rng) -> Vec<String> {
             toks.push(env_tok(rng, kind, true));
         }
         toks.push("LOAD".to_string());
+        if rng.chance(1, 5) {
+            toks.push("CL".to_string());
+        }
     } else {
         toks.push("NEW".to_string());
     }
@@ -520,26 +609,28 @@ fn history(rng: &mut Rng) -> Vec<String> {
         let t = if r < 30 {
             // on a loaded store prefer keys that exist in the tree half of the time
             let k = if loaded && rng.chance(1, 3) { tree_path(rng, kind) } else { key(rng) };
-            format!("I:{}:{}", hexs(k), hex(&content(rng, kind)))
+            format!("I:{}:{}", hex(k), hex(&content(rng, kind)))
         } else if r < 52 {
             let k = if loaded && rng.chance(3, 4) { tree_path(rng, kind) } else { key(rng) };
-            format!("G:{}", hexs(k))
+            format!("G:{}", hex(k))
         } else if r < 60 {
             let k = if loaded && rng.chance(1, 2) { tree_path(rng, kind) } else { key(rng) };
-            format!("R:{}", hexs(k))
-        } else if r < 62 {
+            format!("R:{}", hex(k))
+        } else if r < 61 {
             "C".to_string()
+        } else if r < 63 {
+            "CL".to_string()
         } else if r < 68 {
             "T".to_string()
         } else if r < 72 {
             "K".to_string()
         } else if r < 77 {
-            format!("H:{}", hexs(key(rng)))
+            format!("H:{}", hex(key(rng)))
         } else if r < 94 {
             if loaded {
                 env_tok(rng, kind, false)
             } else {
-                format!("G:{}", hexs(key(rng)))
+                format!("G:{}", hex(key(rng)))
             }
         } else {
             save_tok(rng)
@@ -583,7 +674,7 @@ pub fn gen(tier: &str, seed: u64, out: &mut dyn Write) {
                         for (pos, pi) in perm.iter().enumerate() {
                             let mut b = body.to_vec();
                             b.push(b'0' + pos as u8);
-                            toks.push(format!("I:{}:{}", hexs(KEY_POOL[tri[*pi]]), hex(&b)));
+                            toks.push(format!("I:{}:{}", hex(KEY_POOL[tri[*pi]]), hex(&b)));
                         }
                         toks.push("S".to_string());
                         emit(out, &toks);
